@@ -278,7 +278,52 @@ def rounded_capacity_compare(ctx, rule, orientation=True):
     return n_cmp
 
 
+def rounded_stock_compare(ctx, rule):
+    """Every refusing ordering comparison against the stored volume of a container ("not enough left") is made on a value
+    rounded to the internal precision: the stored volume is rounded, an unrounded product (n * q) differs from it by
+    representation error in some storage units and not in others."""
+    model = ctx.model
+    n_cmp = 0
+    for m in model.functions('pyplate/pyplate.py'):
+        if m.parent is not None or '.volume' not in unparse(m.node, 100000):
+            continue
+        ff = None
+        for st in ast.walk(m.node):
+            if not (isinstance(st, ast.If) and any(isinstance(b_, ast.Raise) for b_ in st.body)):
+                continue
+            tests = st.test.values if isinstance(st.test, ast.BoolOp) else [st.test]
+            for t in tests:
+                if not (isinstance(t, ast.Compare) and len(t.ops) == 1 and isinstance(t.ops[0], (ast.Lt, ast.LtE, ast.Gt, ast.GtE))):
+                    continue
+                sides = [t.left, t.comparators[0]]
+                volside = [x for x in sides if isinstance(x, ast.Attribute) and x.attr == 'volume']
+                if len(volside) != 1:
+                    continue
+                other = sides[1] if volside[0] is sides[0] else sides[0]
+                if isinstance(other, ast.Constant) or (isinstance(other, ast.Attribute) and other.attr.startswith('max_volume')):
+                    continue
+                ff = ff or ctx.flow(m.qualname)
+                if not ff.reachable(st):
+                    continue
+                res = ff.resolve(other, ff.state_before(st))
+                n_cmp += 1
+                ok = is_rounded(res)
+                ctx.ob(rule, m, st.lineno, f"rounded-compare: `{unparse(other, 60)}` against the stored volume", ok,
+                       fact=f"operand {'is' if ok else 'is not'} rounded to internal precision",
+                       why='an unrounded floating-point value is compared with the rounded stored volume: a stock used '
+                           'up exactly is refused under some storage units and accepted under others',
+                       key='stock compare on unrounded value')
+    ctx.count('stock_comparisons', n_cmp)
+    floor(ctx, 'refusing comparisons against a stored volume', n_cmp, 1)
+    return n_cmp
+
+
 def run(ctx):
+    from .configtime import derived_values as _derived
+    _derived(ctx, 'C03.R1', ('Container', 'Plate', 'PlateSlicer', 'Slicer'))
+    from .configtime import cached_arrays_not_updated_in_place as _cached_arrays3
+    _cached_arrays3(ctx, 'C03.R1', ('Container.create_solution', 'Container.create_solution_from'))
+    rounded_stock_compare(ctx, 'C03.R1')
     # whatever the plate-level transfers compute themselves (a fail-early total, a pre-check) is unit-consistent
     from . import targets as _targets
     from .. import uscan as _uscan2
